@@ -213,6 +213,7 @@ def check_incon(ctx, case, src, dst, repo, inc=None):
     from t2incons import t2incon
     name = 'incon-transfer'
     if inc is None: inc = make_incon(src, case['nvar'], case['vseed'], populate=case.get('populate', 'lists'))
+    prime_process()
     before = snapshot(inc)
     new = t2incon()
     maps = None
@@ -289,11 +290,57 @@ def check_incon(ctx, case, src, dst, repo, inc=None):
     if snapshot(inc) != before:
         fail(ctx, name, 'incon_transfer:source-altered', case, 'source t2incon differs after repeated transfers', 'source unchanged')
         return new
+    if ta == 2 and dst_atm:
+        # defaulted atmosphere: edit the defaulted blocks of the results in place, transfer again -> defaults again
+        for obj in (new, used):
+            for b, c in dst_atm:
+                for k in range(len(obj[b].variable)): obj[b][k] = 4242.0 + k
+        later = t2incon()
+        try:
+            if case.get('explicit'): later.transfer_from(inc, src, dst, maps[0], maps[1])
+            else: later.transfer_from(inc, src, dst)
+            bad = [(b, state(later[b])[0]) for b, c in dst_atm if state(later[b]) != (DEFAULT_ATM, None, None, None, None)]
+        except Exception as e:
+            bad = [repr(e)]
+        if bad:
+            fail(ctx, name, 'incon_transfer:default-atmosphere-depends-on-earlier-results', case,
+                 'after editing the defaulted atmosphere blocks of an earlier result, a new transfer gives %r' % (bad[:2],),
+                 'default atmosphere conditions %r' % (DEFAULT_ATM,))
+            return new
     ctx.count(('inc', repr(case)))
     return new
 
 
 _USED = {}
+
+
+def prime_process():
+    """what an earlier caller in the same process may have done: transfers with DEFAULT mapping arguments on an
+    unrelated pair of geometries (all atmosphere arrangements that copy / average / default), followed by in-place
+    edits of everything those transfers returned.  The statement is about each transfer on its own, so nothing of
+    this may show in a later result.  Called at the start of every transfer check (so a single replayed case
+    reproduces leaks between calls)."""
+    from mulgrids import mulgrid
+    from t2incons import t2incon
+    from t2data import t2data
+    from t2grids import t2grid
+    if 'prime' not in _USED:
+        _USED['prime'] = []
+        for ta, tb in ((1, 0), (2, 1), (2, 0), (0, 1)):
+            ps = mulgrid().rectangular([13., 17.], [11.], [3., 4.], atmos_type=ta)
+            pd = mulgrid().rectangular([10., 10., 10.], [11.], [2., 5.], atmos_type=tb)
+            _USED['prime'].append((ps, pd, make_source_data(ps, 5)))
+    for ps, pd, (dat, top, bot) in _USED['prime']:
+        try:
+            inc = make_incon(ps, 2, 99, extras=False)
+            r = t2incon()
+            r.transfer_from(inc, ps, pd)
+            for b in r._blocklist:
+                for k in range(len(b.variable)): b[k] = -777.0 - k          # documented item assignment on a result
+            n = t2data(); n.grid = t2grid().fromgeo(pd)
+            n.transfer_generators_from(dat, ps, pd, top, bot)                 # default mapping arguments
+            for g in n.generatorlist: g.gx = -1.0
+        except Exception: pass          # only there to leave traces; what matters is the check that follows
 
 
 def check_repeat(ctx, case, src, dst, first=None):
@@ -439,6 +486,7 @@ def check_data_transfer(ctx, case, src, dst):
     if atm_code(src) == 2 and atm_code(dst) != 2: return       # no source block for the target's atmosphere blocks
     rename = bool(case.get('rename')); preserve = bool(case.get('preserve'))
     dat, top, bot = make_model(src, case['gseed'], conforming_names=rename)
+    prime_process()
     try:
         mapping, colmap = src.block_mapping(dst, True)
         new = t2data()
@@ -515,6 +563,19 @@ def check_data_transfer(ctx, case, src, dst):
     if pos != len(out):
         fail(ctx, name, 'transfer_from:extra-generators', case, '%d generators' % len(out), '%d' % pos)
         return
+    # transfer_generators_from called on its own with its DEFAULT mapping arguments (after other such calls in this
+    # process, see prime_process) gives the generators transfer_from gave with the mappings of this pair
+    from t2grids import t2grid
+    alt = t2data(); alt.grid = t2grid().fromgeo(dst)
+    try:
+        alt.transfer_generators_from(dat, src, dst, top, bot, rename=rename, preserve_totals=preserve)
+        ga = [gen_state(g) for g in alt.generatorlist]
+    except Exception as e:
+        ga = repr(e)
+    if ga != [gen_state(g) for g in new.generatorlist]:
+        fail(ctx, name, 'transfer_generators_from:default-mappings-depend-on-earlier-calls', case,
+             'with default mapping arguments: %s' % (str(ga)[:200],), 'the %d generators obtained with the mappings of this pair' % len(out))
+        return
     ctx.count(('tf', repr(case)))
     return 'ok'
 
@@ -529,6 +590,7 @@ def check_generators_identity(ctx, case, geo, geo2):
     name = 'generator-transfer-identity'
     rename = bool(case.get('rename')); preserve = bool(case.get('preserve'))
     dat, top, bot = make_source_data(geo, case['gseed'], conforming_names=rename, all_columns=bool(case.get('all_columns')))
+    prime_process()
     before = [gen_state(g) for g in dat.generatorlist]
     new = t2data()
     try:
